@@ -22,7 +22,8 @@ RULE = ("generated interfaces x one random rendering x a random partition into 1
         "warm third load; non-trivial = partitions with > 1 document and every fault point; distinct = distinct "
         "(interface, partition, placement[, fault])"
         ' ; plus: documents held by the store under locations with query strings / fragments, one namespace split by an own-namespace import, a WSDL import followed by an XSD import (D47), a cap on repeated fetches'
-        ' ; schema documents wsdl:imported by two WSDLs, a graph bringing its own copy of the SOAP encoding schema under an explicit schemaLocation')
+        ' ; schema documents wsdl:imported by two WSDLs, a graph bringing its own copy of the SOAP encoding schema under an explicit schemaLocation'
+        ' ; wsdl:import chains whose middle document has no types, wsdl:import cycles of two with the types in the document that is still loading, a global element and its type sharing one name across an include / same-namespace import')
 ASSUMPTIONS = ["an out-of-line schema document refers only to out-of-line schema documents (it can name them by "
                "schemaLocation); an included part does not need declarations of its includer and namespaces on an "
                "import cycle are not split by includes (known finding D35 covers the excluded shape)",
@@ -166,28 +167,51 @@ def web_of(docs, root):
                 if t in idx:
                     edges.append(idx[t])
         wsdl_edges[idx[u]] = edges
-    # inline schema nodes per Definitions: own <types> content, then the schema documents it wsdl:imports
-    for u in urls:
+    # schema nodes each Definitions builds: the Types it holds when its imports are done whose owner has no schema
+    # yet (Types.local()) - its own <types> content, the schema documents it wsdl:imports (attached to its own
+    # <types>), and, in a wsdl:import cycle, the Types of documents that are still loading. The walk below is the
+    # order of Definitions.__init__: children in document order, then the imports opened one by one with the memo.
+    held, built, memo = {}, set(), set()
+
+    def own_entries(u):
         rootn = parsed[u]
-        if rootn["name"][1] != "definitions":
-            continue
-        blocks = []
+        out = []
         for c in rootn["children"]:
             if c["name"] == (IF.WSDLNS, "types"):
-                for s in c["children"]:
-                    if s["name"] == (xmlread.XSD, "schema"):
-                        blocks.append(({"tns": s["attrs"].get((None, "targetNamespace")) or "",
-                                        "refs": schema_refs(s, u)}, False))
-        imported = []
-        for c in rootn["children"]:
-            if c["name"] == (IF.WSDLNS, "import"):
-                t = join(u, c["attrs"][(None, "location")])
-                if t in parsed and parsed[t]["name"][1] == "schema":
-                    s = parsed[t]
-                    imported.append(({"tns": s["attrs"].get((None, "targetNamespace")) or "",
-                                      "refs": schema_refs(s, t)}, True))
-        # Import.import_schema appends to <types>; when the WSDL had no <types> one is created first
-        inline[idx[u]] = [b for b, _ in blocks + imported]
+                for sn in c["children"]:
+                    if sn["name"] == (xmlread.XSD, "schema"):
+                        out.append((u, {"tns": sn["attrs"].get((None, "targetNamespace")) or "",
+                                        "refs": schema_refs(sn, u)}))
+        return out
+
+    def load(u):
+        memo.add(u)
+        held[u] = own_entries(u)
+        for c in parsed[u]["children"]:
+            if c["name"] != (IF.WSDLNS, "import"):
+                continue
+            t = join(u, c["attrs"][(None, "location")])
+            if t not in parsed:
+                continue
+            if parsed[t]["name"][1] == "schema":
+                sn = parsed[t]
+                held[u].append((u, {"tns": sn["attrs"].get((None, "targetNamespace")) or "", "refs": schema_refs(sn, t)}))
+            else:
+                if t not in memo:
+                    load(t)
+                held[u].extend(held.get(t, []))
+        seen_blocks, blocks = [], []
+        for owner, blk in held[u]:
+            if owner not in built and not any(blk is x for x in seen_blocks):
+                seen_blocks.append(blk)
+                blocks.append(blk)
+        inline[idx[u]] = blocks
+        built.add(u)
+    if parsed[root]["name"][1] == "definitions":
+        load(root)
+    for u in urls:
+        if parsed[u]["name"][1] == "definitions":
+            inline.setdefault(idx[u], [])
     return {"wsdl": [{"k": k, "deps": v} for k, v in sorted(wsdl_edges.items())],
             "xsd": [{"k": k, "deps": v} for k, v in sorted(xsd_edges.items())],
             "inline": [{"k": k, "blocks": [{"tns": b["tns"], "refs": [{"import": r["import"], "ns": r["ns"],
@@ -239,6 +263,10 @@ def run(ctx):
         ctx.dist["max fetches of one document=%d" % max(counts.values(), default=0)] += 1
         if plan.get("wsdl_diamond"):
             ctx.dist["wsdl:import diamond"] += 1
+        if plan.get("wsdl_chain"):
+            ctx.dist["wsdl:import chain (middle document without types)"] += 1
+        if plan.get("own_soapenc"):
+            ctx.dist["graph brings its own SOAP encoding schema"] += 1
         # each Definitions document is fetched once, and builds its schema once with its own memo: no document
         # can be needed more often than once per Definitions (+ once as a Definitions itself)
         n_defs = sum(1 for u, dd in docs.items() if b"<wsdl:definitions" in dd[:400]) + \
@@ -274,6 +302,7 @@ def run(ctx):
     included_needs_includer(ctx)
     store_and_split_namespace(ctx)
     wsdl_then_xsd_imports(ctx)
+    same_name_element_and_type(ctx)
     relative_include_shapes(ctx)
     if metas:
         ctx.sample({"input": metas[0][0], "fetched": metas[0][1]})
@@ -488,6 +517,41 @@ def store_and_split_namespace(ctx):
                     ctx.fail("the documents were not fetched exactly once each", meta, tr.opened, [root_url, part_url])
 
 
+def same_name_element_and_type(ctx):
+    """A global element and the named type it has share one name (element Foo of type Foo - a common layout), the type
+    living in an included / same-namespace-imported document: the same client as the single document."""
+    T = wsdlkit.TNS
+    tdecl = ('<xsd:complexType name="Foo"><xsd:sequence><xsd:element name="a" type="xsd:string"/><xsd:element name="n" '
+             'type="x:Bar" minOccurs="0"/></xsd:sequence></xsd:complexType><xsd:complexType name="Bar"><xsd:sequence>'
+             '<xsd:element name="b" type="xsd:int"/></xsd:sequence></xsd:complexType>')
+    edecl = '<xsd:element name="Foo" type="x:Foo"/><xsd:element name="Bar" type="x:Bar"/>'
+    single = wsdlkit.wsdl_doc(tdecl + edecl, "Foo", None)
+    ref = wsdlkit.envelope_bytes(wsdlkit.client(single, nosend=True).service.f("va", {"b": 3}))
+    types_doc = ('<xsd:schema xmlns:xsd="http://www.w3.org/2001/XMLSchema" xmlns:x="%s" targetNamespace="%s" '
+                 'elementFormDefault="qualified">%s</xsd:schema>' % (T, T, tdecl)).encode()
+    variants = {
+        "types-included": (wsdlkit.wsdl_doc('<xsd:include schemaLocation="suds://types.xsd"/>' + edecl, "Foo", None),
+                           {"types.xsd": types_doc}),
+        "types-included-after": (wsdlkit.wsdl_doc(edecl.replace("<xsd:element", '<xsd:include schemaLocation="suds://types.xsd"/>'
+                                                                 "<xsd:element", 1), "Foo", None), {"types.xsd": types_doc}),
+        # (the other direction - included elements that need the includer's types - is known finding D35 a)
+        "types-imported-same-namespace": (wsdlkit.wsdl_doc('<xsd:import namespace="%s" schemaLocation="suds://types.xsd"/>' % T
+                                                           + edecl, "Foo", None), {"types.xsd": types_doc}),
+    }
+    for name, (main, extra) in variants.items():
+        meta = {"stream": "same-name-element-and-type", "variant": name}
+        ctx.case(common.canon(meta), True)
+        try:
+            got = wsdlkit.envelope_bytes(wsdlkit.client(main, extra_docs=extra, nosend=True).service.f("va", {"b": 3}))
+        except Exception as e:
+            ctx.fail("a partitioned WSDL does not load although its single-document form does", meta,
+                     "%s: %s" % (type(e).__name__, str(e)[:200]), "the same client as the single document")
+            continue
+        if xmlread.infoset(xmlread.parse(got)) != xmlread.infoset(xmlread.parse(ref)):
+            ctx.fail("the partitioned WSDL yields a different client than the single document", meta, got.decode(),
+                     ref.decode())
+
+
 def wsdl_then_xsd_imports(ctx):
     """A root WSDL that wsdl:imports another WSDL (which has <types> of its own) AND an XSD document, in either
     order: everything is loaded and built."""
@@ -539,6 +603,30 @@ def widen(ctx):
     run(ctx)
 
 
+def wsdl_cycle_relative_location():
+    """D52 witness: the root carries <types> whose schema imports a RELATIVE location, and wsdl:imports a document in
+    another folder that imports the root back; -> the load error, None when it loads."""
+    xsd = (b'<xsd:schema xmlns:xsd="http://www.w3.org/2001/XMLSchema" targetNamespace="urn:t" '
+           b'elementFormDefault="qualified"><xsd:element name="f" type="xsd:int"/></xsd:schema>')
+    aux = ('<?xml version="1.0"?><wsdl:definitions targetNamespace="urn:w" xmlns:wsdl="%s"><wsdl:import namespace="urn:w" '
+           'location="../root.wsdl"/></wsdl:definitions>' % IF.WSDLNS).encode()
+    w = ('<?xml version="1.0"?><wsdl:definitions targetNamespace="urn:w" xmlns:wsdl="%s" xmlns:w="urn:w" '
+         'xmlns:t="urn:t" xmlns:soap="%s" xmlns:xsd="http://www.w3.org/2001/XMLSchema"><wsdl:import namespace="urn:w" '
+         'location="x/aux.wsdl"/><wsdl:types><xsd:schema targetNamespace="urn:stub"><xsd:import namespace="urn:t" '
+         'schemaLocation="a/types.xsd"/></xsd:schema></wsdl:types>'
+         '<wsdl:message name="fIn"><wsdl:part name="p" element="t:f"/></wsdl:message><wsdl:portType name="PT">'
+         '<wsdl:operation name="f"><wsdl:input message="w:fIn"/></wsdl:operation></wsdl:portType>'
+         '<wsdl:binding name="B" type="w:PT"><soap:binding style="document" '
+         'transport="http://schemas.xmlsoap.org/soap/http"/><wsdl:operation name="f"><soap:operation '
+         'soapAction="f"/><wsdl:input><soap:body use="literal"/></wsdl:input></wsdl:operation></wsdl:binding>'
+         '<wsdl:service name="S"><wsdl:port name="P" binding="w:B"><soap:address location="http://x.invalid/"/>'
+         '</wsdl:port></wsdl:service></wsdl:definitions>' % (IF.WSDLNS, IF.SOAPNS)).encode()
+    client, err, store, tr = load("http://docs.invalid/root.wsdl", {},
+                                  {"http://docs.invalid/root.wsdl": w, "http://docs.invalid/x/aux.wsdl": aux,
+                                   "http://docs.invalid/a/types.xsd": xsd})
+    return err
+
+
 def witness(ctx, k):
     kind = (k.get("witness") or {}).get("kind")
     if kind == "included-needs-includer":
@@ -547,6 +635,8 @@ def witness(ctx, k):
         c2 = common.Ctx(ctx.prop_id, "quick", 0, common.Driver(False), [])
         wsdl_then_xsd_imports(c2)
         return bool(c2.failures)
+    if kind == "wsdl-cycle-base-url":
+        return wsdl_cycle_relative_location() is not None
     if kind == "wimport-xsd-base-url":
         xsd = (b'<xsd:schema xmlns:xsd="http://www.w3.org/2001/XMLSchema" targetNamespace="urn:t" '
                b'elementFormDefault="qualified"><xsd:include schemaLocation="more.xsd"/></xsd:schema>')
